@@ -10,7 +10,7 @@
   Not a theorem (see PARTIAL in the harness): "for stationary Gaussian noise of mean m and rms s the maps
   equal m and s to within sampling error" — a statistical statement, sampled by the harness.
 -/
-import Aegean.Proofs.C06Pipe
+import Aegean.Proofs.C06Plumb
 
 namespace Aegean.Properties.C06
 open Aegean.Model.C06 Aegean.Proofs.C06
@@ -287,6 +287,129 @@ theorem one_row_all_nan_pinned (G : Geom) (stripes : List Stripe) (img : Img ℝ
     have e : nodeVal G S Prod.fst (cut G S img) = fun _ _ => none := by
       funext i j; exact nodeVal_none_of_small G S _ _ i j hsmall
     simp only [e, Aegean.Proofs.C06.interp_eq, bilin]
+
+/-! ### the metric form of the mask clause -/
+
+/-- **finite_far_from_blanks**: a pixel `(y, x)` of stripe `S` such that every blank pixel of the image is
+    farther than `bY/2 + gy` in rows **or** farther than `bX/2 + gx` in columns (`FarFromBlanks`; the boxes are
+    rectangles) is finite in both output maps, masking on or off, for both subtraction modes.
+    What the code guarantees and the proof uses: a node is finite as soon as its (non-empty) box holds one finite
+    pixel (`nodeVal_isSome_of_mem`); each of the four surrounding nodes has in its box a pixel of the same grid cell
+    as `(y, x)` (`row_witness`, `col_witness`) — finite by the distance hypothesis, and with a finite background
+    because it is interpolated from the same four nodes; interpolation of four finite nodes is finite.
+    Hypotheses the proof forces: repaired box clamp `e = 0` (with the pinned clamp the last row/column is in no
+    box), `box/2 ≥ 1`, positive grid, the stripe is non-empty, inside the image and owns its rows. -/
+theorem finite_far_from_blanks (mode : Mode) (mask : Bool) (G : Geom) (stripes : List Stripe) (img : Img ℝ) (S : Stripe)
+    (y x : Nat) (hgy : 0 < G.gy) (hgx : 0 < G.gx) (hY : 1 ≤ G.bY / 2) (hX : 1 ≤ G.bX / 2) (he : G.e = 0)
+    (hS : S.ymin < S.ymax ∧ S.ymax ≤ G.R)
+    (hown : ∀ y', S.has y' = true → stripeAt stripes y' = some S) (hy : S.has y = true) (hx : x < G.C)
+    (hfar : FarFromBlanks G img y x) :
+    (bkgOut mask G stripes img y x).isSome ∧ (rmsOut mode mask G stripes img y x).isSome :=
+  finite_far mode mask G stripes img S y x hgy hgx hY hX he hS hown hy hx hfar
+
+/-! ### own-rows subtraction, one stripe -/
+
+/-- **rms_in_range_own_partial**: pinned subtraction, single stripe only (false with ≥ 2 stripes: ledger item 8) -/
+theorem rms_in_range_own_partial (G : Geom) (img : Img ℝ) (a b : ℝ)
+    (hgy : 0 < G.gy) (hgx : 0 < G.gx) (h : ∀ y x v, img y x = some v → a ≤ v ∧ v ≤ b)
+    (y x : Nat) (hx : x < G.C) (w : ℝ) (hw : rmsFn Mode.own G [⟨0, G.R⟩] img y x = some w) :
+    0 ≤ w ∧ w ≤ b - a := by
+  rw [rmsFn_own_single] at hw
+  exact rms_in_range G _ img a b hgy hgx h y x hx w hw
+
+/-- **const_image_own_partial**: pinned subtraction, single stripe only -/
+theorem const_image_own_partial (G : Geom) (img : Img ℝ) (k : ℝ)
+    (h : ∀ y x, y < G.R → x < G.C → img y x = some k) (y x : Nat) (w : ℝ)
+    (hw : rmsFn Mode.own G [⟨0, G.R⟩] img y x = some w) : w = 0 := by
+  rw [rmsFn_own_single] at hw
+  exact (const_image G _ img k h y x).2 w hw
+
+/-! ### file plumbing: cube plane, BSCALE, returned maps, written files -/
+
+theorem rmsOut_scale (mode : Mode) (mask : Bool) (G : Geom) (stripes : List Stripe) (img : Img ℝ) (k : ℝ) (y x : Nat) :
+    rmsOut mode mask G stripes (scaleImg k img) y x = (rmsOut mode mask G stripes img y x).map (|k| * ·) := by
+  simp only [rmsOut, masked_scale, rms_scale]
+  split <;> rfl
+
+/-- an out-of-range cube index is rejected: nothing returned, nothing written -/
+theorem filterImage_cube_rejected (mode : Mode) (mask : Bool) (G : Geom) (stripesOf : Geom → List Stripe)
+    (f : FileIn ℝ) (cube : Nat) (outBase compressed : Bool) (h : f.naxis > 2 ∧ cube ≥ f.n3) :
+    (filterImage mode mask G stripesOf f cube outBase compressed).returned = none ∧
+    (filterImage mode mask G stripesOf f cube outBase compressed).bkgFile = none ∧
+    (filterImage mode mask G stripesOf f cube outBase compressed).rmsFile = none := by
+  simp [filterImage, h.1, h.2]
+
+/-- **filterImage_returned** (lifts `run_is_bane` through the plumbing): whatever `out_base` and whether or not the
+    output is compressed, the returned maps are the estimator applied to the *physical* image (selected plane ×
+    BSCALE) on the effective grid — in particular they do not depend on `out_base`, and on `compressed` only through
+    the squared grid step -/
+theorem filterImage_returned (mode : Mode) (mask : Bool) (G : Geom) (stripesOf : Geom → List Stripe)
+    (f : FileIn ℝ) (cube : Nat) (outBase compressed : Bool) (h : f.naxis ≤ 2 ∨ cube < f.n3) :
+    (filterImage mode mask G stripesOf f cube outBase compressed).returned =
+      some (bkgOut mask (effGeom G compressed) (stripesOf (effGeom G compressed)) (physical f cube),
+            rmsOut mode mask (effGeom G compressed) (stripesOf (effGeom G compressed)) (physical f cube)) := by
+  have hc : (decide (f.naxis > 2) && decide (cube ≥ f.n3)) = false := by
+    rcases h with h | h <;> simp <;> omega
+  simp [filterImage, hc]
+
+/-- the maps depend on the file only through the selected plane, BSCALE and the axis bookkeeping -/
+theorem filterImage_plane_only (mode : Mode) (mask : Bool) (G : Geom) (stripesOf : Geom → List Stripe)
+    (f f' : FileIn ℝ) (cube : Nat) (outBase compressed : Bool)
+    (h1 : f.naxis = f'.naxis) (h2 : f.n3 = f'.n3) (h3 : f.bscale = f'.bscale) (h4 : selected f cube = selected f' cube) :
+    filterImage mode mask G stripesOf f cube outBase compressed = filterImage mode mask G stripesOf f' cube outBase compressed := by
+  have hp : physical f cube = physical f' cube := by
+    simp only [physical, h3, h4]
+  simp only [filterImage, h1, h2, h3, hp]
+
+/-- BSCALE is a scale of the image: with `BSCALE = b` the returned maps are `b ·` background and `|b| ·` noise of
+    the raw plane (the scale law applied to the file plumbing) -/
+theorem filterImage_bscale_is_scale (mode : Mode) (mask : Bool) (G : Geom) (stripes : List Stripe)
+    (f : FileIn ℝ) (cube : Nat) (b : ℝ) (hb : f.bscale = some b) (y x : Nat) :
+    bkgOut mask G stripes (physical f cube) y x = (bkgOut mask G stripes (selected f cube) y x).map (b * ·) ∧
+    rmsOut mode mask G stripes (physical f cube) y x = (rmsOut mode mask G stripes (selected f cube) y x).map (|b| * ·) := by
+  simp only [physical, hb, mulImg_eq_scaleImg]
+  exact ⟨bkgOut_scale mask G stripes _ b y x, rmsOut_scale mode mask G stripes _ b y x⟩
+
+/-- **file_times_bscale_is_returned** (uncompressed): the written `*_bkg.fits` / `*_rms.fits`, read back with their
+    BSCALE, are the returned maps, pixel for pixel, and have the image's shape (what seeded change C06-3 broke) -/
+theorem file_times_bscale_is_returned (mode : Mode) (mask : Bool) (G : Geom) (stripesOf : Geom → List Stripe)
+    (f : FileIn ℝ) (cube : Nat) (h : f.naxis ≤ 2 ∨ cube < f.n3) (hb : f.bscale ≠ some 0) :
+    (filterImage mode mask G stripesOf f cube true false).bkgFile.map FileOut.readBack
+      = (filterImage mode mask G stripesOf f cube true false).returned.map Prod.fst ∧
+    (filterImage mode mask G stripesOf f cube true false).rmsFile.map FileOut.readBack
+      = (filterImage mode mask G stripesOf f cube true false).returned.map Prod.snd ∧
+    (filterImage mode mask G stripesOf f cube true false).bkgFile.map (fun o => (o.rows, o.cols)) = some (G.R, G.C) ∧
+    (filterImage mode mask G stripesOf f cube true false).rmsFile.map (fun o => (o.rows, o.cols)) = some (G.R, G.C) := by
+  have hc : (decide (f.naxis > 2) && decide (cube ≥ f.n3)) = false := by
+    rcases h with h | h <;> simp <;> omega
+  cases hbs : f.bscale with
+  | none =>
+    have d1 : ∀ m : Img ℝ, divImg (1 : ℝ) m = m := by
+      intro m; funext y x; cases hm : m y x <;> simp [divImg, hm]
+    simp [filterImage, hc, hbs, effGeom, FileOut.readBack, d1]
+  | some b =>
+    have hb0 : b ≠ 0 := by intro e; exact hb (by rw [hbs, e])
+    simp [filterImage, hc, hbs, effGeom, FileOut.readBack, mul_div_img b hb0]
+
+/-- **compressed_file_is_returned_at_nodes**: entry `(i, j)` of a compressed output file, read back with its BSCALE,
+    is the returned map at `(decIdx R f i, decIdx C f j)` — every `f`-th row/column and the last one -/
+theorem compressed_file_is_returned_at_nodes (mode : Mode) (mask : Bool) (G : Geom) (stripesOf : Geom → List Stripe)
+    (f : FileIn ℝ) (cube : Nat) (h : f.naxis ≤ 2 ∨ cube < f.n3) (hb : f.bscale ≠ some 0) (i j : Nat) :
+    (filterImage mode mask G stripesOf f cube true true).bkgFile.map (fun o => o.readBack i j)
+      = (filterImage mode mask G stripesOf f cube true true).returned.map
+          (fun p => p.1 (decIdx (effGeom G true).R (effGeom G true).gy i) (decIdx (effGeom G true).C (effGeom G true).gy j)) ∧
+    (filterImage mode mask G stripesOf f cube true true).rmsFile.map (fun o => o.readBack i j)
+      = (filterImage mode mask G stripesOf f cube true true).returned.map
+          (fun p => p.2 (decIdx (effGeom G true).R (effGeom G true).gy i) (decIdx (effGeom G true).C (effGeom G true).gy j)) := by
+  have hc : (decide (f.naxis > 2) && decide (cube ≥ f.n3)) = false := by
+    rcases h with h | h <;> simp <;> omega
+  cases hbs : f.bscale with
+  | none => simp [filterImage, hc, hbs, FileOut.readBack, divImg]
+  | some b =>
+    have hb0 : b ≠ 0 := by intro e; exact hb (by rw [hbs, e])
+    have e2 : ∀ (v : Option ℝ), (v.map (· / b)).map (· * b) = v := by
+      intro v; cases v <;> simp [div_mul_cancel₀ _ hb0]
+    simp [filterImage, hc, hbs, FileOut.readBack, divImg, mulImg, e2]
 
 /-! ### evaluated witnesses (tests, not theorems): the toy image is 4 rows × 2 columns, grid 2, box 4,
     two stripes `[0,2)`, `[2,4)`; a constant image 0 and the same image + 1.  Run at `Float`. -/
